@@ -135,11 +135,13 @@ var propImports = map[string][]imp{
 		{"C06.11/E3", "C11", "subscription state is accessed under the socket lock", []string{"C11.1/E3|protocol/sub", "C11.1/E3|protocol/xsub", "C11.1/E3|protocol/xpub"}},
 	},
 	"C07": {
+		{"C07.20/id-freshness", "C13", "a raw RESPONDENT routes an answer by the id of the connection the survey came in on: the id of a surveyor that has gone is not handed to the next one to connect", []string{"C13.8/allocator"}},
 		{"C07.17/fresh-backing", "C17", "each survey's backtrace lives in memory of its own", []string{"C17.7/fresh-backing-per-message|protocol/xrespondent", "C17.7/fresh-backing-per-message|protocol/respondent", "C17.7/fresh-backing-per-message|protocol/xsurveyor", "C17.7/fresh-backing-per-message|protocol/surveyor"}},
 		{"C07.15/queue-sizing", "C19", "every connected respondent is sent each survey, queue space permitting: the space is the configured one", []string{"C19.6/queue-length-agrees|protocol/surveyor", "C19.6/queue-length-agrees|protocol/xsurveyor", "C19.6/queue-length-agrees|protocol/respondent", "C19.6/queue-length-agrees|protocol/xrespondent", "C19.4/inheritance|protocol/surveyor", "C19.4/inheritance|protocol/respondent"}},
 		{"C07.16/E3", "C11", "survey state is accessed under the socket lock", []string{"C11.1/E3|protocol/surveyor", "C11.1/E3|protocol/xsurveyor", "C11.1/E3|protocol/respondent", "C11.1/E3|protocol/xrespondent"}},
 	},
 	"C08": {
+		{"C08.16/redial-timer", "C14", "one connection per dialer: the redial timer is armed only by the two places that schedule a redial (a spent timer re-armed by an option setter dials a second connection, and every message then arrives twice)", []string{"C14.13/timer-discipline|redialer"}},
 		{"C08.14/inproc-copies", "C01", "each member gets a message of its own over inproc too (the hop count one member bumps is not the other's)", []string{"C01.7/inproc"}},
 		{"C08.15/queue-read-at-use", "C19", "a receiver delivers into the receive queue in force now, not the one it saw when the peer connected", []string{"C19.9/options-read-at-use|protocol/xstar", "C19.9/options-read-at-use|protocol/xbus"}},
 		{"C08.13/one-connection-per-dialer", "C14", "a dialer that failed and was reported as failed does not keep connecting in the background: a second pipe to the same member delivers every message twice", []string{"C14.2/backoff", "C14.5/redial-after-loss"}},
@@ -148,6 +150,7 @@ var propImports = map[string][]imp{
 		{"C08.11/E3", "C11", "peer tables are accessed under the socket lock", []string{"C11.1/E3|protocol/xbus", "C11.1/E3|protocol/xstar"}},
 	},
 	"C09": {
+		{"C09.18/frame-buffers-local", "C15", "a device's connections send concurrently: each frame's length prefix is built in memory of its own call, so payloads and routing words stay with their frame", []string{"C15.12/frame-buffers-local"}},
 		{"C09.16/id-freshness", "C13", "a routing word names the connection a request came in on: the id of a connection that has gone is not handed to the next one while replies addressed to it can still be in flight", []string{"C13.8/allocator"}},
 		{"C09.17/raw-fanout", "C07", "a survey device forwards through the raw surveyor socket: its fan-out offers every survey to every pipe whatever the queue length option", []string{"C07.19/raw-fanout"}},
 		{"C09.15/inproc-copies", "C01", "a message crossing an in-process link arrives as header followed by body, in a buffer of its own: a device forwards what it received, so a mangled copy is forwarded mangled", []string{"C01.7/inproc"}},
@@ -158,9 +161,12 @@ var propImports = map[string][]imp{
 		{"C09.9/star-forward", "C08", "a STAR node forwards a private copy with the hop header intact whatever the local application does with its own copy", []string{"C08.4/star-forward"}},
 	},
 	"C10": {
+		{"C10.19/lock-order", "C11", "Close takes the socket's and the endpoints' locks: two paths that take them in opposite orders can leave both held for ever, and Close never returns", []string{"C11.2/E2"}},
 		{"C10.12/E10c", "C19", "a queue that a goroutine re-fills under the socket lock has room for it: otherwise that goroutine blocks holding the lock and Close never returns", []string{"C19.2/E10c"}},
 	},
 	"C11": {
+		{"C11.13/unsubscribe-prune", "C06", "unsubscribe prunes by draining the old queue into a fresh one without blocking: receivers take from the queue without the socket lock, so a pass that counts the queue and then receives that many times can block for ever holding the lock", []string{"C06.3/unsubscribe", "C06.9/queue-swap-wakes"}},
+		{"C11.14/context-state", "C05", "a RESPONDENT context's 'survey to answer' state is cleared and restored as a whole: a half-restored state lets the next SendMsg dereference a pipe that is not there", []string{"C05.2/context-send|protocol/respondent"}},
 		{"C11.12/forward-copies", "C08", "a message handed to the application and the one forwarded to other peers are separate copies: the application's writes do not race with the senders still transmitting it", []string{"C08.4/star-forward"}},
 		{"C11.10/no-callback-under-lock", "C13", "application hooks are called with no internal lock held (a hook that closes the pipe or uses the socket would deadlock)", []string{"C13.6/hook-no-lock"}},
 		{"C11.9/ownership", "C17", "concurrent users of one socket never end up holding the same message or buffer", []string{"C17.1/E5", "C17.5/send-contract", "C17.7/fresh-backing-per-message"}},
@@ -174,11 +180,13 @@ var propImports = map[string][]imp{
 		{"C12.11/redial", "C14", "losing or failing a connection at any stage never stops a dialer from redialling", []string{"C14.2/backoff", "C14.5/redial-after-loss"}},
 	},
 	"C13": {
+		{"C13.16/redial-decision", "C14", "a pipe closed from a hook while it is attaching leaves the dialer redialling: the decision to schedule the next attempt depends on nothing but (asked to redial, closed, outcome)", []string{"C14.2/backoff"}},
 		{"C13.15/redial-after-loss", "C14", "a dialer's next pipe exists only if the loss of the previous one schedules the redial: every departure of a dialed pipe arms the timer while the dialer is open, whatever the current delay", []string{"C14.5/redial-after-loss"}},
 		{"C13.10/carry-on", "C12", "the listener and the dialer carry on accepting and redialling: a peer's failure is never reported as 'endpoint closed'", []string{"C12.5/ErrClosed-means-closed", "C12.3/endpoint-usable"}},
 		{"C13.11/handshake", "C16", "a connection that fails its handshake yields no pipe and does not end the accept loop", []string{"C16.6/handshake-validation"}},
 	},
 	"C14": {
+		{"C14.15/option-ranges", "C19", "each reconnect option accepts every non-negative duration whatever the other is set to: the socket forwards them one at a time and ignores a refusal, so a cross-check between them leaves the dialer on its old values", []string{"C19.2/ranges|internal/core.(*dialer)"}},
 		{"C14.14/option-stores", "C19", "each reconnect option writes its own field: the current delay is changed only by the back-off and the reset, never by setting the maximum", []string{"C19.3/set-get-symmetry|internal/core.(*dialer)"}},
 		{"C14.11/dial-returns", "C16", "every handshake outcome is reported to the Dial that waits for it: otherwise the dialer never learns of the failure and never retries", []string{"C16.5/handshaker|worker/"}},
 		{"C14.12/dialer-list", "C13", "the socket's dialer list holds exactly the dialers created on it: Close closes those, and a dialer dropped from the list keeps dialling after Close", []string{"C13.14/core-state-writers|writers-of-dialers"}},
@@ -187,6 +195,7 @@ var propImports = map[string][]imp{
 		{"C14.7/registration", "C10", "a dialer is registered with its socket, or refused, atomically with the socket's closed state: a dialer added to a closed socket keeps dialling for ever", []string{"C10.3/socket-close|NewDialer", "C10.10/E3b|internal/core.(*socket).NewDialer", "C10.10/E3b|internal/core.(*dialer)"}},
 	},
 	"C16": {
+		{"C16.24/limit-settable-on-live-listener", "C19", "the receive limit can be lowered on a listener that is already bound: option setters answer with nil, bad-value or bad-option only, never 'wrong state'", []string{"C19.1/option-shape|transport/"}},
 		{"C16.22/attach", "C13", "a connection that dies right behind a valid handshake is taken off the protocol again: attach and the added flag change under the pipe lock, so the close that follows sees them", []string{"C13.1/addPipe"}},
 		{"C16.19/hop-word", "C09", "the hop count is the whole header word: a peer cannot smuggle a huge count past the limit in its upper bytes", []string{"C09.1/hop-normal-form"}},
 		{"C16.18/queue-room", "C19", "a receiver that re-queues under the socket lock always has room: otherwise one message from a peer blocks it with the lock held and the whole socket stalls", []string{"C19.2/E10c", "C19.2/ranges"}},
